@@ -251,6 +251,71 @@ static int count_tasks(pid_t pid)
 	return n;
 }
 
+/* run-queue wait time per task (schedstat field 2): a thread that is runnable but not
+ * given a CPU accumulates it.  Used to tell "nothing will ever make progress" from
+ * "something is starved of CPU". */
+struct rq_snap {
+	int n;
+	int tid[160];
+	uint64_t wait[160];
+	uint64_t t_ns;
+};
+
+/* tasks of the calling process that are harness application threads (spinning bp
+ * readers legitimately queue for a CPU) are left out */
+static int (*rq_exclude)(int tid);
+
+static void rq_snapshot(pid_t pid, struct rq_snap *s)
+{
+	char p[128], buf[128];
+	s->n = 0;
+	s->t_ns = vp_now_ns();
+	snprintf(p, sizeof(p), "/proc/%d/task", (int) pid);
+	DIR *d = opendir(p);
+	struct dirent *de;
+	if (!d)
+		return;
+	while ((de = readdir(d)) && s->n < 160) {
+		if (de->d_name[0] == '.')
+			continue;
+		int tid = atoi(de->d_name);
+		unsigned long long run = 0, wait = 0;
+		if (pid == getpid() && rq_exclude && rq_exclude(tid))
+			continue;
+		snprintf(p, sizeof(p), "/proc/%d/task/%d/schedstat", (int) pid, tid);
+		if (read_small(p, buf, sizeof(buf)) <= 0 || sscanf(buf, "%llu %llu", &run, &wait) != 2)
+			continue;
+		s->tid[s->n] = tid;
+		s->wait[s->n] = wait;
+		s->n++;
+	}
+	closedir(d);
+}
+
+/* largest fraction (per mille) of the elapsed time any task spent waiting for a CPU */
+static int rq_starved_permille(pid_t pid, const struct rq_snap *before)
+{
+	struct rq_snap now;
+	rq_snapshot(pid, &now);
+	uint64_t el = now.t_ns - before->t_ns, maxw = 0;
+	if (!el || !before->n)
+		return 0;
+	for (int i = 0; i < now.n; i++) {
+		uint64_t w0 = 0;
+		for (int k = 0; k < before->n; k++)
+			if (before->tid[k] == now.tid[i]) {
+				w0 = before->wait[k];
+				break;
+			}
+		uint64_t dw = now.wait[i] - w0;
+		if (dw > el)
+			dw = el;	/* task created in between */
+		if (dw > maxw)
+			maxw = dw;
+	}
+	return (int) (maxw * 1000 / el);
+}
+
 /* ------------------------------------------------------------------ child side */
 
 /* called first thing in a freshly forked child */
@@ -351,6 +416,8 @@ static void wait_child(pid_t pid, int rfd, struct shp *cs, const char *desc, str
 	int nsamp = 0, sleeping = 0, eof = 0;
 	char *wit = calloc(1, 3 * 4096 + 64);
 	size_t wit_len = 0;
+	struct rq_snap rq0;
+	rq0.n = 0;
 
 	memset(cr, 0, sizeof(*cr));
 	while (!eof) {
@@ -383,6 +450,8 @@ static void wait_child(pid_t pid, int rfd, struct shp *cs, const char *desc, str
 			continue;
 		}
 		if (!eof && now - t_last >= (uint64_t) (nsamp + 1) * (G.stall_ns / 3)) {
+			if (!nsamp)
+				rq_snapshot(pid, &rq0);
 			sleeping += thread_sleeping(pid, pid);
 			wit_len += (size_t) snprintf(wit + wit_len, 64, " sample %d at +%llu ms:\n", nsamp,
 						     (unsigned long long) ((now - t_last) / 1000000));
@@ -401,14 +470,20 @@ static void wait_child(pid_t pid, int rfd, struct shp *cs, const char *desc, str
 						(unsigned long long) ((now - t_last) / 1000000), wit);
 					fclose(w);
 				}
-				if (sleeping == 3) {
-					snprintf(key, sizeof(key), "hang:fork:child:%s", ph);
+				int starved = rq_starved_permille(pid, &rq0);
+				if (sleeping == 3 && starved < 250) {
+					/* phase is "<role>:<step>"; role child = the script right after the fork,
+					 * as-parent / parent = that process preparing / following a nested fork */
+					if (!strncmp(ph, "child:", 6))
+						snprintf(key, sizeof(key), "hang:fork:child:%s", ph + 6);
+					else
+						snprintf(key, sizeof(key), "hang:fork:child-process:%s", ph);
 					R_viol(key, "%s: child pid %d made no progress for %llu ms in phase '%s' and its thread was blocked in the kernel at all 3 samples; witness=%s",
 					       desc, (int) pid, (unsigned long long) ((now - t_last) / 1000000), ph, path);
 					cr->hung = 1;
 				} else {
-					R_inconcl("fork child no progress in phase %s but thread not observed blocked (%d/3): %s", ph,
-						  sleeping, desc);
+					R_inconcl("fork child no progress in phase %s but thread not observed blocked (%d/3) or a thread starved of CPU (%d per mille): %s",
+						  ph, sleeping, starved, desc);
 					cr->hung = 2;
 				}
 				kill(pid, SIGKILL);
